@@ -49,6 +49,9 @@ type harness struct {
 	durMu  sync.Mutex
 	durs   []time.Duration
 	kept   map[string]string // world -> directory under replays/ holding its data directory
+	// concurrent leg (conc.go)
+	vnodeRace string // the node built with -race ("" = not built)
+	maxConc   int64  // maximum number of requests in flight on one node
 }
 
 type job struct {
@@ -74,7 +77,10 @@ type nodeCtx struct {
 var mutating = map[string]bool{"/api/v1/injectTransaction": true, "/api/v1/wallet/create": true, "/api/v1/wallet/newAddress": true, "/api/v1/wallet/scan": true,
 	"/api/v1/wallet/update": true, "/api/v1/wallet/unload": true, "/api/v1/wallet/encrypt": true, "/api/v1/wallet/decrypt": true, "/api/v2/wallet/recover": true, "/api/v2/data": true}
 
-func (h *harness) spawn(j job, tag string) (*nodeCtx, error) {
+func (h *harness) spawn(j job, tag string) (*nodeCtx, error) { return h.spawnWith(h.vnode, "", j, tag) }
+
+// spawnWith: crypto != "" overrides the crypto type the wallet service uses for wallets it encrypts itself
+func (h *harness) spawnWith(bin, crypto string, j job, tag string) (*nodeCtx, error) {
 	dir := filepath.Join(h.tmp, tag)
 	if err := os.MkdirAll(dir, 0755); err != nil {
 		return nil, err
@@ -87,10 +93,13 @@ func (h *harness) spawn(j job, tag string) (*nodeCtx, error) {
 	o := w.NodeOptions(data)
 	o.DisableCSRF = !j.CSRF
 	o.APISets = nil // all
+	if crypto != "" {
+		o.WalletCrypto = crypto
+	}
 	var p *node.Proc
 	var err error
 	for try := 0; try < 3; try++ { // the peer port is probed, then bound: another process may take it in between
-		p, err = node.Spawn(h.vnode, dir, o)
+		p, err = node.Spawn(bin, dir, o)
 		if err == nil {
 			break
 		}
@@ -203,6 +212,9 @@ func (h *harness) report(kind string, attrs map[string]string, witness interface
 		}
 	}
 	key := kind + "|" + attrs["route"] + "|" + attrs["frame"] + "|" + attrs["world"] + "|" + attrs["value_class"]
+	if attrs["class"] == "deadlock" { // the same deadlock catches different requests on different nodes
+		key = kind + "|deadlock|" + attrs["frame"]
+	}
 	h.seenMu.Lock()
 	h.seen[key]++
 	first := h.seen[key] == 1
@@ -656,6 +668,9 @@ func main() {
 		fmt.Fprintln(os.Stderr, "vnodeapi binary not found (run through ./check):", err)
 		os.Exit(3)
 	}
+	if p := filepath.Join(os.Getenv("VERIF_BIN"), "vnodeapi-race"); fileExists(p) {
+		h.vnodeRace = p
+	}
 	var rep *replayDoc
 	if p := r.ReplayPath(); p != "" {
 		rep = loadReplay(p)
@@ -668,7 +683,7 @@ func main() {
 		}
 		os.RemoveAll(h.tmp)
 	}
-	if rep != nil && rep.Witness.WorldDir != "" && rep.Witness.Options != nil {
+	if rep != nil && rep.Witness.Conc == nil && rep.Witness.WorldDir != "" && rep.Witness.Options != nil {
 		if _, err := os.Stat(rep.Witness.WorldDir); err == nil {
 			// replay on the data directory kept by the run that found the violation
 			h.worlds[rep.Witness.Job.World] = apifix.LoadWorld(rep.Witness.WorldDir, *rep.Witness.Options)
@@ -695,8 +710,13 @@ func main() {
 		return
 	}
 
+	onlyConc := os.Getenv("C28_LEGS") == "conc" // development aid: the concurrent leg alone (the floors of the other legs then fail)
 	slowDone := make(chan struct{})
-	go h.slowProbe(slowDone)
+	if onlyConc {
+		close(slowDone)
+	} else {
+		go h.slowProbe(slowDone)
+	}
 
 	perJob := r.Pick(2500, 8000)
 	var jobs []job
@@ -709,7 +729,29 @@ func main() {
 	}
 	// interleave the worlds
 	sort.SliceStable(jobs, func(a, b int) bool { return jobs[a].Index < jobs[b].Index })
-	vf.Parallel(len(jobs), r.Pick(12, 14), func(i int) { h.runJob(jobs[i]) })
+	// the concurrent leg runs next to the sequential one, on nodes of its own
+	var cjobs []concJob
+	nConc, perConc, kConc := r.Pick(3, 8), r.Pick(2400, 24000), r.Pick(12, 16)
+	for i := 0; i < nConc; i++ {
+		cj := concJob{World: "main", Index: 500 + i, N: perConc, K: kConc}
+		if i%4 == 2 {
+			cj.World = "genesis"
+		}
+		if i%4 == 1 && h.vnodeRace != "" { // one node in four is the -race build (about 8x slower)
+			cj.Race, cj.N, cj.K = true, perConc/6, 8
+		}
+		cjobs = append(cjobs, cj)
+	}
+	concDone := make(chan struct{})
+	go func() {
+		defer close(concDone)
+		vf.Parallel(len(cjobs), r.Pick(3, 4), func(i int) { h.runConc(cjobs[i]) })
+	}()
+	if onlyConc {
+		jobs = nil
+	}
+	vf.Parallel(len(jobs), r.Pick(12, 12), func(i int) { h.runJob(jobs[i]) })
+	<-concDone
 	<-slowDone
 
 	// coverage
@@ -742,6 +784,23 @@ func main() {
 	r.Extra("violation_classes", h.seen)
 	h.seenMu.Unlock()
 	r.Count("panics", r.Get("observed.panic"))
+	r.Count("conc.max_requests_in_flight_on_one_node", h.maxConc)
+	concStats.mu.Lock()
+	r.Extra("concurrent_requests_by_route_and_outcome", concStats.m)
+	slowest := map[string]string{}
+	for k, d := range concStats.slow {
+		if d > 2*time.Second {
+			slowest[k] = d.Round(time.Millisecond).String()
+		}
+	}
+	r.Extra("concurrent_routes_with_an_answer_slower_than_2s", slowest)
+	concStats.mu.Unlock()
+	raceMu.Lock()
+	if h.vnodeRace != "" {
+		r.Extra("data_race_reports_in_product_code (observations of the -race node; not judged by C28)", raceSeen)
+		r.Extra("data_race_report_texts", raceText)
+	}
+	raceMu.Unlock()
 
 	r.Floor("requests", int64(r.Pick(25000, 350000)))
 	r.Floor("requests.world_genesis", int64(r.Pick(5000, 80000)))
@@ -754,11 +813,20 @@ func main() {
 	r.Floor("slow_probe_runs", 1)
 	r.Floor("status.200", 5000)
 	r.Floor("status.400", 3000)
+	// concurrent leg: a run without real overlap of reads and state changes says nothing
+	r.Floor("conc.jobs", int64(nConc))
+	r.Floor("conc.requests", int64(r.Pick(5000, 120000)))
+	r.Floor("conc.state_changing_200", int64(r.Pick(1000, 25000)))
+	r.Floor("conc.read_only_200", int64(r.Pick(1500, 30000)))
+	r.Floor("conc.read_overlapping_state_change", int64(r.Pick(1500, 30000)))
+	r.Floor("conc.max_requests_in_flight_on_one_node", int64(kConc-2))
 	cleanup()
 	r.Finish("per node instance: the minimal valid request of every endpoint, then a seeded stream of grammar-generated requests (typed dictionaries per documented parameter: valid / unknown / boundary / malformed), mutations of earlier successful requests and syntactically valid junk; two prepared nodes (30-block chain with pool and wallets; height 0 with a pooled transaction); non-trivial = distinct (method, route, status, answer shape)",
 		"decimal exponents in the stream are capped at |e| <= 5000; one dedicated probe per run sends 1e2000000000 alone to an idle node against a 60 s bound with a 3 GiB memory guard",
 		"cost-proportional count parameters (wallet newAddress num, scan) only take small or unparsable values, and encrypting an unencrypted wallet (default scrypt N=2^20, ~1 GiB per call) is exercised on one node in the thorough tier only: heavy but legitimate work is not judged",
-		"a watchdog (90 s without answer) never decides by itself: the single request must reproduce on a fresh idle node against 120 s",
+		"sequential leg: a watchdog (90 s without answer) never decides by itself: the single request must reproduce on a fresh idle node against 120 s",
+		"concurrent leg: K clients per node send at the same time, 45% state-changing (wallet update/newAddress/create/encrypt/decrypt/scan/unload, injectTransaction, storage) and 55% reading requests, four fifths of them well formed and addressed to four wallets; a relative watchdog (500 x the node's median latency, at least 20 s) only starts the procedure: a hang is reported on the logical deadlock witness (lock-free probe answered, probe of the stuck component silent, >= 2 requests still outstanding, goroutine dump with >= 2 request-serving goroutines of src/api|visor|wallet|kvstorage|daemon blocked on a lock and none of those components running, runnable or in a syscall); anything else is inconclusive",
+		"encrypt/decrypt in the concurrent leg only name wallets created encrypted with the node's cheap crypto type; data race reports of the -race node are recorded as observations and attached to a violation they coincide with, not judged",
 		"JSON well-formedness is required of 200 answers only (README: error bodies may not be JSON)",
 		"nodes are assembled by lib/node like skycoin.Coin.Run; MaxLastBlocksCount is 0 there, so /api/v1/last_blocks only answers for num=0")
 }
@@ -771,6 +839,7 @@ type replayDoc struct {
 	Witness struct {
 		Job      job           `json:"job"`
 		Request  *apifix.Req   `json:"request"`
+		Conc     *concJob      `json:"conc_job"`
 		Earlier  []*apifix.Req `json:"earlier_state_changing_requests"`
 		WorldDir string        `json:"world_dir"`
 		Options  *node.Options `json:"node_options"`
@@ -783,14 +852,41 @@ func loadReplay(p string) *replayDoc {
 	if err == nil {
 		err = json.Unmarshal(b, &d)
 	}
-	if err != nil || d.Witness.Request == nil {
+	if err != nil || (d.Witness.Request == nil && d.Witness.Conc == nil) {
 		fmt.Fprintln(os.Stderr, "replay:", err)
 		os.Exit(3)
 	}
 	return &d
 }
 
+func fileExists(p string) bool { _, err := os.Stat(p); return err == nil }
+
+// replayConc: a violation of the concurrent leg depends on the interleaving; the node's whole
+// concurrent workload is run again (up to three times)
+func (h *harness) replayConc(d *replayDoc) {
+	cj := *d.Witness.Conc
+	if cj.Race && h.vnodeRace == "" {
+		cj.Race = false
+	}
+	for try := 0; try < 3 && h.r.Violations() == 0; try++ {
+		h.runConc(cj)
+	}
+	ok := h.r.Violations() > 0
+	fmt.Printf("REPLAY property=C28 reproduced=%v\n", ok)
+	if ok {
+		for _, w := range h.worlds {
+			w.Remove()
+		}
+		os.RemoveAll(h.tmp)
+		os.Exit(1)
+	}
+}
+
 func (h *harness) replay(d *replayDoc) {
+	if d.Witness.Conc != nil {
+		h.replayConc(d)
+		return
+	}
 	j := d.Witness.Job
 	if h.worlds[j.World] == nil {
 		j.World = "main"
